@@ -721,3 +721,45 @@ package circuitbreaker
 //@   requires c != nil
 //@   ensures [C16.breaker.listener_registered_onhalfopen] c.halfOpenListener == listener && c.stateChangedListener == old(c.stateChangedListener) && c.openListener == old(c.openListener) && c.closeListener == old(c.closeListener) && result == asiface(c)
 //@   modifies c.halfOpenListener
+
+// Builder wrappers: each delegates exactly once to the shared registration function of the same name on its own base policy
+// and returns the builder itself.
+//@ func (*config).HandleErrors
+//@   builder
+//@   requires c != nil && c.BaseFailurePolicy != nil
+//@   oldlet nd := 0
+//@   oldlet dr := nil
+//@   oldlet dn := -1
+//@   oncall (*BaseFailurePolicy).HandleErrors: nd := nd + 1; dr := callarg_0; dn := len(callarg_1)
+//@   ensures [C12.breaker.handleerrors_delegates+C03.builder.handleerrors] nd == 1 && dr == c.BaseFailurePolicy && result_0 == asiface(c) && dn == len(errs)
+//@   havoc
+//@   modifies *
+//@ func (*config).HandleErrorTypes
+//@   builder
+//@   requires c != nil && c.BaseFailurePolicy != nil
+//@   oldlet nd := 0
+//@   oldlet dr := nil
+//@   oldlet dn := -1
+//@   oncall (*BaseFailurePolicy).HandleErrorTypes: nd := nd + 1; dr := callarg_0; dn := len(callarg_1)
+//@   ensures [C12.breaker.handleerrortypes_delegates+C03.builder.handleerrortypes] nd == 1 && dr == c.BaseFailurePolicy && result_0 == asiface(c) && dn == len(errs)
+//@   havoc
+//@   modifies *
+//@ func (*config).HandleResult
+//@   builder
+//@   requires c != nil && c.BaseFailurePolicy != nil
+//@   oldlet nd := 0
+//@   oldlet dr := nil
+//@   oncall (*BaseFailurePolicy).HandleResult: nd := nd + 1; dr := callarg_0
+//@   ensures [C12.breaker.handleresult_delegates+C03.builder.handleresult] nd == 1 && dr == c.BaseFailurePolicy && result_0 == asiface(c)
+//@   havoc
+//@   modifies *
+//@ func (*config).HandleIf
+//@   builder
+//@   requires c != nil && c.BaseFailurePolicy != nil
+//@   oldlet nd := 0
+//@   oldlet dr := nil
+//@   oldlet da := nil
+//@   oncall (*BaseFailurePolicy).HandleIf: nd := nd + 1; dr := callarg_0; da := callarg_1
+//@   ensures [C12.breaker.handleif_delegates+C03.builder.handleif] nd == 1 && dr == c.BaseFailurePolicy && result_0 == asiface(c) && da == predicate
+//@   havoc
+//@   modifies *
